@@ -59,6 +59,14 @@ def run(ctx):
                         continue
                     check_child_wiring(ob, T.assume(leaf, set(cs)), node, PRV, T.assume(ekey, set(cs)),
                                        T.assume(echain, set(cs)), i, fckd.where)
+                # the only refusals BIP32 defines are IL >= n and k_i = 0: any other refusing condition rejects a valid child
+                il = T.int_(T.slice_(SP.ckd_priv_I(k, c, i), T.const(0), T.const(32)), BIG)
+                allowed = {T.not_(T.lt(il, T.CURVE_N)), T.eq(T.const(0), T.int_(ekey, BIG))}
+                for cs, leaf in raise_leaves(v):
+                    trig = T.hoist(cs[-1]) if cs else None
+                    ok = trig is not None and any(trig == T.hoist(a) or T.assume(trig, set(cs[:-1])) == T.assume(a, set(cs[:-1])) for a in allowed)
+                    ob.require(ok, 'PrvKeyNode.ckd refuses (%s) under a condition that BIP32 does not declare invalid' % leaf[1], fckd.where,
+                               expected='only IL >= n or k_i == 0', found=T.show(cs[-1], maxdepth=5) if cs else 'unconditional')
             with ctx.obligation('C01.BRANCH', 'PrvKeyNode.ckd', cfg, fckd.where) as ob:
                 for lo, hi, hardened in _cells_index():
                     facts = Facts().add(T.not_(T.lt(i, T.const(lo)))).add(T.lt(i, T.const(hi + 1)))
